@@ -4,6 +4,7 @@ import (
 	"context"
 	"crypto/ed25519"
 	"fmt"
+	alog "github.com/anacrolix/log"
 	"net"
 	"strings"
 	"time"
@@ -74,6 +75,11 @@ type c12stored struct {
 	salt    string
 	seq     int64
 }
+
+// slowHandler is a log handler that takes fake time per record.
+type slowHandler struct{ d time.Duration }
+
+func (h slowHandler) Handle(alog.Record) { time.Sleep(h.d) }
 
 func c12server(r *Run) {
 	ch := r.Ch
@@ -414,6 +420,13 @@ func c12client(r *Run) {
 		target = refImmutableTarget(benc.Encode(imm))
 	}
 	np := ch.Range(3, 20, "npeers")
+	// in a third of the runs most peers hold a genuine version (different seqs): several
+	// valid values then arrive close together and the newest must still win
+	kindW := []int{4, 2, 2, 2, 2, 3, 2}
+	if ch.Chance(1, 3, "mostly.genuine") {
+		kindW = []int{14, 1, 1, 1, 1, 1, 1}
+		r.Probe("mostly-genuine-network")
+	}
 	maxValid := int64(-1 << 63)
 	anyValid := false
 	for i := 0; i < np; i++ {
@@ -423,7 +436,7 @@ func c12client(r *Run) {
 		}
 		p := pop.Add(id, r.Addr(form))
 		stt := PS(p)
-		kind := ch.Pick([]int{4, 2, 2, 2, 2, 3, 2}, "reply.kind")
+		kind := ch.Pick(kindW, "reply.kind")
 		switch ch.Pick([]int{8, 1, 1}, "reply.token") {
 		case 1:
 			stt.NoToken = true // answers without a write token
@@ -491,9 +504,21 @@ func c12client(r *Run) {
 		res getput.GetResult
 		err error
 	}
+	// a caller whose logger is slow: Get's receive loop then takes fake time per value, and
+	// further values arrive (and the lookup may stall) while it is busy
+	slowLog := time.Duration(0)
+	if ch.Chance(1, 3, "consumer.slowlog") {
+		slowLog = time.Duration(ch.Range(1, 120, "consumer.slowlog.ms")) * time.Millisecond
+		r.Probe("slow-consumer-logger")
+	}
 	c := r.Go("get", func() any {
 		ctx, cancel := context.WithTimeout(context.Background(), 2*time.Minute)
 		defer cancel()
+		if slowLog > 0 {
+			lg := alog.NewLogger("slow-consumer")
+			lg.SetHandlers(slowHandler{slowLog})
+			ctx = alog.ContextWithLogger(ctx, lg.WithFilterLevel(alog.Debug))
+		}
 		res, _, err := getput.Get(ctx, target, s, nil, salt)
 		return gres{res, err}
 	})
